@@ -486,7 +486,7 @@ def native_replay(job, src, test_code, logdir):
     return out
 
 
-def native_cargo_test(base_src, scratch, files, test_name, logdir, tag):
+def native_cargo_test(base_src, scratch, files, test_name, logdir, tag, features=None):
     """Replay for E2/E3 counterexamples: append `files` {relative path: code} to a
     fresh copy of the (un-injected) snapshot and run the named #[test] natively in
     the dev profile and with release semantics. reproduced = the test fails."""
@@ -502,7 +502,7 @@ def native_cargo_test(base_src, scratch, files, test_name, logdir, tag):
         env = dict(ENV)
         if prof == "release":
             env.update({"CARGO_PROFILE_TEST_OVERFLOW_CHECKS": "false", "CARGO_PROFILE_TEST_DEBUG_ASSERTIONS": "false", "CARGO_PROFILE_TEST_OPT_LEVEL": "2"})
-        cmd = ["cargo", "test", "--offline", "--lib", "--target-dir", os.path.join(scratch, "ntarget_" + prof), test_name]
+        cmd = ["cargo", "test", "--offline", "--lib"] + (["--features", ",".join(features)] if features else []) + ["--target-dir", os.path.join(scratch, "ntarget_" + prof), test_name]
         rc, wall, to = run_limited(cmd, dst, logf, 900, 16, env=env)
         txt = open(logf, errors="replace").read()
         ran = re.search(r"test result: (\w+)\. (\d+) passed; (\d+) failed", txt)
